@@ -320,6 +320,7 @@ fn a_atom3_prefix2<const N: usize>(ci: bool) {
 }
 
 //@ harness: a_atom3_prefix2_n4
+//@ rss: 26
 //@ props: C08 C02 C01
 //@ tier: thorough
 //@ mem: 30
@@ -328,16 +329,6 @@ fn a_atom3_prefix2<const N: usize>(ci: bool) {
 //@ bound: program Atom[c1,c2,c3] with prefix=[c1,c2] (a proper, possibly self-overlapping prefix), minimum_length=3; all scalar values; input <= 4 chars; start 0..=len
 //@ encodes: ReMatcher::matches(prefix-scan,minimum-length) ReMatcher::match_at Atom::matches_iter
 std_stubs! { #[kani::unwind(7)] pub(crate) fn a_atom3_prefix2_n4() { a_atom3_prefix2::<4>(false) } }
-
-//@ harness: a_atom3_prefix2_i_n4
-//@ props: C08 C11
-//@ tier: thorough
-//@ mem: 30
-//@ timeout: 3000
-//@ cost: 3000
-//@ bound: program Atom[c1,c2,c3] with prefix=[c1,c2], flag i (case mapping = arithmetic model); input <= 4 chars; start 0..=len
-//@ encodes: ReMatcher::matches(case-blind-prefix-scan) ReMatcher::match_at Atom::matches_iter ReMatcher::equal_case_blind
-std_stubs! { #[kani::unwind(7)] pub(crate) fn a_atom3_prefix2_i_n4() { a_atom3_prefix2::<4>(true) } }
 
 // ----------------------------------------- start-anchor fast path (C08, C12)
 fn a_bol_hasbol<const N: usize>(multi: bool) {
@@ -363,6 +354,7 @@ fn a_bol_hasbol<const N: usize>(multi: bool) {
 }
 
 //@ harness: a_bol_hasbol_m_n3
+//@ rss: 10
 //@ props: C12 C08
 //@ tier: thorough
 //@ cost: 900
@@ -417,6 +409,7 @@ fn a_hasbol_atom<const N: usize>(from_zero: bool) {
 }
 
 //@ harness: a_hasbol_atom_m_n3
+//@ rss: 24
 //@ props: C12 C08 C01
 //@ tier: thorough
 //@ cost: 3000
@@ -433,16 +426,6 @@ std_stubs! { #[kani::unwind(8)] pub(crate) fn a_hasbol_atom_m_n3() { a_hasbol_at
 //@ bound: program Atom[c] with OPT_HASBOL, flag m; input <= 2 chars over all scalar values; start 0..=len
 //@ encodes: ReMatcher::matches(OPT_HASBOL-path,line-seeking) ReMatcher::match_at Atom::matches_iter
 std_stubs! { #[kani::unwind(7)] pub(crate) fn a_hasbol_atom_m_n2() { a_hasbol_atom::<2>(false) } }
-
-//@ harness: a_hasbol_atom_m_n4
-//@ props: C12 C08 C01
-//@ tier: thorough
-//@ cost: 3000
-//@ mem: 30
-//@ timeout: 3400
-//@ bound: program Atom[c] with OPT_HASBOL, flag m; input <= 4 chars over all scalar values; search from position 0
-//@ encodes: ReMatcher::matches(OPT_HASBOL-path,line-seeking) ReMatcher::match_at Atom::matches_iter
-std_stubs! { #[kani::unwind(9)] pub(crate) fn a_hasbol_atom_m_n4() { a_hasbol_atom::<4>(true) } }
 
 // ---- prefix scan on a three-character literal (what flag q compiles to) ------
 // op = Nothing keeps match_at cheap: the subject is the comparison loop of the
@@ -475,6 +458,7 @@ fn a_prefix3_scan<const N: usize>(ci: bool) {
 }
 
 //@ harness: a_prefix3_scan_n4
+//@ rss: 18
 //@ props: C13 C08
 //@ tier: quick
 //@ mem: 26
@@ -484,6 +468,7 @@ fn a_prefix3_scan<const N: usize>(ci: bool) {
 std_stubs! { #[kani::unwind(8)] pub(crate) fn a_prefix3_scan_n4() { a_prefix3_scan::<4>(false) } }
 
 //@ harness: a_prefix3_scan_i_n4
+//@ rss: 22
 //@ props: C13 C08 C11
 //@ tier: thorough
 //@ cost: 900
